@@ -147,6 +147,9 @@ def run(ctx):
             jobs.append(("doc", c, 1))
     else:
         ctx.notes.append("the documented model-level counterexamples (PGPKeySel_Doc*.cfg) are run in the thorough tier")
+    if os.environ.get("VERIF_SKIP_MC"):          # development aid for mutation runs; recorded in the evidence
+        jobs = [j for j in jobs if j[0] == "gen"]
+        ctx.skipped.append("VERIF_SKIP_MC set: the model-checking configurations were skipped, only the generators ran")
     big = {"PGPKeySel_Sub2.cfg": 8, "PGPKeySel_GenSub2.cfg": 8, "PGPKeySel_Sel.cfg": 6, "PGPKeySel_GenSel.cfg": 6,
            "PGPKeySel_Quick.cfg": 8, "PGPKeySel_GenQuick.cfg": 8}
 
